@@ -183,9 +183,17 @@ def kvline(kv):
 def gen_schedule(rng, N, vr=False, ratio=1.0):
     """push / pull / oneshot schedule over N input frames; returns list of op lines (harness/chan/common.h:inst_op)"""
     est = int(N / ratio) + 64
-    style = rng.below(3)
+    style = rng.below(4)
     ops = []
-    if style == 0:            # push
+    if style == 3:            # low latency: every request is a handful of frames (shorter than any block-wise fast path)
+        N = min(N, int(700 * max(ratio, .05)) + 1)
+        est = int(N / ratio) + 64
+        ops.append("limit %d" % N)
+        for _ in range(20 + rng.below(60)):
+            ops.append("feed %d %d %d" % (rng.choice([1, 3, 7, 12, 15, 40]), rng.choice([1, 2, 5, 10, 15]), rng.below(2)))
+        ops.append("feed %d %d 0" % (N, rng.choice([1, 7, 15])))
+        ops.append("drain %d" % rng.choice([5, 15, max(15, est // 40)]))
+    elif style == 0:          # push
         ops.append("limit %d" % N)
         for _ in range(2 + rng.below(12)):
             ops.append("feed %d %d %d" % (rng.choice([1, 7, 64, 100, 333, 1000, 4096]), rng.choice([1, 10, 64, 257, 1000, 5000]), rng.below(2)))
